@@ -74,3 +74,53 @@ CONTRACTS["model:SinkCompartment.update"] = dict(
     frame_props=["C01", "C02"],
     defined_props=["C02"],
 )
+
+# ------------------------------------------------------------------------------------------------ junctions
+# Plain junction outside a duration group.  Domain restriction of C01/C04: when people enter, sum(p) > 0.
+_j_common = ["0 <= ti", "all(l.parameter is not None for l in self.outlinks)",
+             "all(ti < len(l.parameter.vals) for l in self.outlinks)",
+             "all(l.parameter.vals[ti] >= 0 for l in self.outlinks)"]            # proportions are clipped to [0, inf) by the framework limits
+_inflow = "sum(il.vals[ti] for il in self.inlinks)"
+_psum = "sum(l.parameter.vals[ti] for l in self.outlinks)"
+
+CONTRACTS["model:JunctionCompartment.balance#plain"] = dict(
+    schema=schema,
+    self_classes=["JunctionCompartment"],
+    params={"ti": "int"},
+    requires=_j_common + ["self.duration_group is None", _plain_out, _links_ti_ok,
+                          "all(ti < len(il.vals) for il in self.inlinks)",
+                          "all(il.vals[ti] >= 0 for il in self.inlinks)",
+                          "all(not isinstance(il, TimedLink) for il in self.inlinks)",
+                          "implies(%s > 0, %s > 0)" % (_inflow, _psum)],
+    modifies=["l.vals[ti] for l in self.outlinks"],
+    ensures=[
+        ("C04.split_by_normalised_proportion", "all(l.vals[ti] * old(%s) == old(%s) * old(l.parameter.vals[ti]) for l in self.outlinks)" % (_psum, _inflow)),
+        ("C01+C04.passes_on_what_it_receives", "implies(old(%s) > 0, sum(l.vals[ti] for l in self.outlinks) == old(%s))" % (_psum, _inflow)),
+        ("C02.flows_nonneg", "all(l.vals[ti] >= 0 for l in self.outlinks)"),
+    ],
+    frame_props=["C01", "C02", "C04"],
+    defined_props=["C02"],
+)
+
+# Junction inside a duration group: every link in and out is a TimedLink with the group's number of rows R; the split is per row.
+_inflow_row = "sum(il._vals[i, ti] for il in self.inlinks)"
+CONTRACTS["model:JunctionCompartment.balance#group"] = dict(
+    schema=schema,
+    self_classes=["JunctionCompartment"],
+    params={"ti": "int"},
+    ghost_params={"R": "int"},
+    requires=_j_common + ["self.duration_group is not None", "self.duration_group != ''", "R >= 1",
+                          "all(isinstance(l, TimedLink) for l in self.outlinks)", "all(isinstance(il, TimedLink) for il in self.inlinks)",
+                          "all(l._vals.shape[0] == R and ti < l._vals.shape[1] for l in self.outlinks)",
+                          "all(il._vals.shape[0] == R and ti < il._vals.shape[1] for il in self.inlinks)",
+                          "all(il._vals[i, ti] >= 0 for il in self.inlinks for i in range(R))",
+                          "all(implies(%s > 0, %s > 0) for i in range(R))" % (_inflow_row, _psum)],
+    modifies=["l._vals[:, ti] for l in self.outlinks"],
+    ensures=[
+        ("C04+C05.split_per_row", "all(l._vals[i, ti] * old(%s) == old(%s) * old(l.parameter.vals[ti]) for l in self.outlinks for i in range(R))" % (_psum, _inflow_row)),
+        ("C01+C04.passes_on_per_row", "all(implies(old(%s) > 0, sum(l._vals[i, ti] for l in self.outlinks) == old(%s)) for i in range(R))" % (_psum, _inflow_row)),
+        ("C02.flows_nonneg", "all(l._vals[i, ti] >= 0 for l in self.outlinks for i in range(R))"),
+    ],
+    frame_props=["C01", "C02", "C04"],
+    defined_props=["C02"],
+)
